@@ -327,35 +327,43 @@ def c_bohm2(ctx, it, cfg):
 
 @REG.contract('invert4rankTensor', [EF + ':invert4rankTensor', EF + ':convert4To2rankTensor', EF + ':convert2To4rankTensor'])
 def c_inv4(ctx, it, cfg):
-    """the fourth-rank inverse is the 6x6 inverse of the tensor's own 6x6 image (no symmetrisation, no transposition), mapped back; the inhomogeneous-inclusion
-    matrix (C_P - C_M) S + C_M is NOT symmetric in general, so this matters for the agreement of the 6x6 and fourth-rank routes"""
+    """the fourth-rank inverse (stated from the property, not from the code: the Bohm energy must reduce to the homogeneous-inclusion result, which needs
+    A : inv(A) = identity on symmetric second-rank tensors, I_ijmn = (d_im d_jn + d_in d_jm)/2) of a tensor with minor symmetries whose 6x6 image is ANY invertible
+    matrix (no symmetrisation, no transposition: the inhomogeneous-inclusion matrix (C_P - C_M) S + C_M is not symmetric in general).  np.linalg.inv of the 6x6
+    image is opaque in the numpy model; its assumed contract img . inv(img) = I is expanded here for the (memoised) inverse the code obtained."""
     m = it.load(EF).env
     A2, v = sym66(ctx, 'a', symmetric=False)
     A4 = m['convert2To4rankTensor'](A2)
     got = m['invert4rankTensor'](A4)
     img = m['convert4To2rankTensor'](A4)
     ctx.prove('6x6-image-of-the-argument-is-the-matrix-itself', and_(*[eq(img.get(i, j), v[(i, j)]) for i in range(6) for j in range(6)]))
-    want = m['convert2To4rankTensor'](NP.linalg.inv(img))
-    for ix in [(0, 0, 0, 0), (0, 0, 1, 1), (1, 1, 0, 0), (0, 1, 0, 1), (0, 1, 2, 2), (2, 2, 0, 1), (1, 2, 0, 2), (0, 2, 1, 2)]:
-        ctx.prove('inverse%d%d%d%d-is-the-entry-of-the-6x6-inverse-of-this-matrix' % ix, eq(got.get(*ix), want.get(*ix)))
-    tr = m['convert2To4rankTensor'](NP.linalg.inv(NP.array([[v[(j, i)] for j in range(6)] for i in range(6)])))
-    ctx.prove('canary/inverse-of-the-transpose', eq(got.get(0, 0, 1, 1), tr.get(0, 0, 1, 1)), expect='refuted')
+    X = NP.linalg.inv(img)
+    ctx.assume(and_(*[eq(sum((img.get(i, k) * X.get(k, j) for k in range(6)), 0), 1 if i == j else 0) for i in range(6) for j in range(6)]))
+    rng = list(itertools.product(range(3), repeat=2))
+    for ij, mn in (((0, 0), (0, 0)), ((0, 0), (1, 1)), ((1, 1), (0, 0)), ((0, 1), (0, 1)), ((0, 1), (1, 0)), ((0, 1), (2, 2)), ((2, 2), (0, 1)), ((1, 2), (0, 2)), ((0, 2), (0, 2))):
+        want = (Fraction(1, 2) if (ij[0] == mn[0] and ij[1] == mn[1]) else 0) + (Fraction(1, 2) if (ij[0] == mn[1] and ij[1] == mn[0]) else 0)
+        ctx.prove('tensor-contracted-with-its-inverse-is-the-symmetric-identity[%d%d%d%d]' % (ij + mn),
+                  eq(sum((A4.get(ij[0], ij[1], k, l) * got.get(k, l, mn[0], mn[1]) for k, l in rng), 0), want))
+    # no refute-first canaries here: a counter-model would have to solve the 36 bilinear equations of the assumed inverse contract (z3 does not within minutes);
+    # the canaries sit in the diagonal instance below, where the inverse is explicit
 
 
 @REG.contract('Bohm-reduction/fourth-rank-inverse-composed-with-the-tensor-is-the-identity-on-strains', [EF + ':invert4rankTensor', EF + ':convert4To2rankTensor', EF + ':convert2To4rankTensor'])
 def c_inv4_identity(ctx, it, cfg):
     """the property: the Bohm energy reduces to the homogeneous-inclusion result when precipitate and matrix stiffness coincide.  With C_P = C_M Bohm's formula
     (strainEnergyBohm) applies  invert4rankTensor(C_M) : C_M  to the eigenstrain; the reduction needs this to return the eigenstrain, for every symmetric eigenstrain
-    (shear components included).  Stated for a mechanically stable stiffness without normal-shear coupling (6x6 image diagonal-block: symbolic positive diagonal)."""
+    (shear components included).  Stated for a 6x6 image with symbolic positive diagonal and one symbolic entry above the diagonal (explicit inverse)."""
     m = it.load(EF).env
     a = [real(ctx, 'c%d%d' % (i, i), lambda v: v > 0) for i in range(6)]
-    A2 = NP.array([[a[i] if i == j else 0 for j in range(6)] for i in range(6)])
+    b = real(ctx, 'c01')       # one coupling entry above the diagonal only: the 6x6 image is NOT symmetric (as (C_P - C_M) S + C_M is not), its inverse is still explicit
+    A2 = NP.array([[a[i] if i == j else (b if (i, j) == (0, 1) else 0) for j in range(6)] for i in range(6)])
     A4 = m['convert2To4rankTensor'](A2)
     inv = m['invert4rankTensor'](A4)
     # np.linalg.inv of a 6x6 matrix is opaque in the numpy model (assumed contract A.inv(A) = I, not expanded); for this diagonal matrix the contract
     # determines the inverse uniquely: 1/c_ii on the diagonal, 0 elsewhere.  Stated here for the same (memoised) opaque inverse the code obtained.
     X = NP.linalg.inv(m['convert4To2rankTensor'](A4))
-    ctx.assume(and_(*[eq(X.get(i, j) * (a[i] if i == j else 1), 1 if i == j else 0) for i in range(6) for j in range(6)]))
+    ctx.assume(and_(*[eq(X.get(i, j) * (a[i] if i == j else 1), 1 if i == j else 0) for i in range(6) for j in range(6) if (i, j) != (0, 1)]))
+    ctx.assume(eq(X.get(0, 1) * a[0] * a[1], 0 - b))
     e = {}
     for i in range(3):
         for j in range(i, 3):
@@ -367,3 +375,5 @@ def c_inv4_identity(ctx, it, cfg):
     back = contract42(inv, contract42(A4, e))          # inv : (C : eps), the same number as (inv : C) : eps
     for ij in ((0, 0), (1, 1), (2, 2), (1, 2), (0, 2), (0, 1)):
         ctx.prove('strain-%d%d-recovered' % ij, eq(back[ij], e[ij]))
+    ctx.prove('canary/shear-entry-is-the-plain-6x6-inverse-entry', eq(inv.get(0, 1, 0, 1), X.get(5, 5)), expect='refuted')
+    ctx.prove('canary/strain-comes-back-doubled', eq(back[(0, 1)], 2 * e[(0, 1)]), expect='refuted')
